@@ -84,6 +84,10 @@ class Argument(object):
 
     @property
     def default(self):  # type: () -> Any
+        if isinstance(self._default, list):
+            # A copy: the list ends up in the hands of user code as the value it parsed
+            return list(self._default)
+
         return self._default
 
     def is_required(self):  # type: () -> bool
